@@ -1247,6 +1247,12 @@ fn roa_family(afi: u16, list: &[RoaPfx]) -> Vec<u8> {
 
 /// RFC 6482 RouteOriginAttestation. Families with an empty list are omitted.
 pub fn roa_content(as_id: u32, v4: &[RoaPfx], v6: &[RoaPfx], explicit_version: bool) -> Vec<u8> {
+    roa_content_ordered(as_id, v4, v6, explicit_version, false)
+}
+
+/// Same; `v6_first` writes the IPv6 family before the IPv4 one (RFC 6482 fixes no
+/// order, RFC 9582 recommends IPv4 first).
+pub fn roa_content_ordered(as_id: u32, v4: &[RoaPfx], v6: &[RoaPfx], explicit_version: bool, v6_first: bool) -> Vec<u8> {
     let mut items = Vec::new();
     if explicit_version {
         items.push(ctx_cons(0, &int_u64(0)));
@@ -1258,6 +1264,9 @@ pub fn roa_content(as_id: u32, v4: &[RoaPfx], v6: &[RoaPfx], explicit_version: b
     }
     if !v6.is_empty() {
         fams.push(roa_family(2, v6));
+    }
+    if v6_first {
+        fams.reverse();
     }
     items.push(seq(&fams));
     seq(&items)
@@ -1486,17 +1495,68 @@ pub struct Dress {
     /// algorithm identifiers without the NULL parameters (inner and outer)
     #[serde(default)]
     pub no_null: bool,
+    /// IP resources: the address families in reverse order (IPv6 first). RFC 3779
+    /// asks for ascending order; the library takes either.
+    #[serde(default)]
+    pub ip_family_swap: bool,
+    /// Resource lists in a form RFC 3779 calls non-canonical but which denotes the same
+    /// set (the library accepts and normalises them): bit 0 AS list reversed, bit 1 IP
+    /// lists reversed, bit 2 an AS entry repeated, bit 3 an IP entry repeated, bit 4 an
+    /// AS range cut into two overlapping or adjacent ranges, bit 5 an IP prefix cut into
+    /// its two halves; bits 8.. choose the entry.
+    #[serde(default)]
+    pub res_noncanon: u32,
 }
 
 impl Dress {
     pub fn is_plain(&self) -> bool {
         *self == Dress::default()
     }
+    /// Some part of the dress is tolerated by the library today but is not something
+    /// RFC 6487 / 7935 promise (unknown extensions or access methods, algorithm
+    /// identifiers without NULL): accepting such a certificate is optional.
+    pub fn acceptance_optional(&self) -> bool {
+        !self.unknown.is_empty() || self.no_null || self.sia & 6 != 0 || self.ip_family_swap || self.res_noncanon & 0x3f != 0
+    }
+    /// The dress from two raw values (monotone in the class, so shrinking moves
+    /// towards the plain library encoding).
+    pub fn from_raw(class: u16, r: u64) -> Dress {
+        const SIZES: [u16; 10] = [0, 1, 5, 100, 117, 118, 119, 245, 246, 300];
+        let unknown = |r: u64, n: usize| -> Vec<(u8, u16)> {
+            (0..n).map(|i| ((r >> (8 * i)) as u8, SIZES[((r >> (32 + 4 * i)) & 15) as usize % SIZES.len()])).collect()
+        };
+        // weights 40, 10, 7, 5, 5, 5, 5, 13, 10 (per cent)
+        let x = (class as u32 * 100) >> 16;
+        let k = [40u32, 50, 57, 62, 67, 72, 77, 90, 100].iter().position(|&b| x < b).unwrap_or(8);
+        match k {
+            0 => Dress::default(),
+            1 => Dress { perm: 1 + (r % 64) as u32, ..Dress::default() },
+            2 => Dress { unknown: unknown(r, 1 + (r >> 60) as usize % 3), ..Dress::default() },
+            3 => Dress { cps: true, crldp_https: (r % 4) as u8, ..Dress::default() },
+            4 => Dress { sia: 1 + (r % 15) as u8, ..Dress::default() },
+            5 => Dress { as_id_as_range: (r as u32) | 1, ..Dress::default() },
+            6 => Dress { no_null: true, perm: (r % 3) as u32, ..Dress::default() },
+            8 => Dress { ip_family_swap: r & 1 == 1, res_noncanon: ((r >> 1) as u32 & 0xffff_ff3f) | if r & 1 == 0 { 1 << ((r >> 40) % 6) } else { 0 }, ..Dress::default() },
+            _ => Dress {
+                perm: (r % 97) as u32,
+                unknown: unknown(r >> 7, (r >> 3) as usize % 3),
+                cps: r >> 5 & 1 == 1,
+                crldp_https: (r >> 9) as u8 % 4,
+                sia: (r >> 11) as u8 % 16,
+                as_id_as_range: if r >> 15 & 1 == 1 { (r >> 16) as u32 } else { 0 },
+                no_null: r >> 6 & 3 == 0,
+                ip_family_swap: false,
+                res_noncanon: 0,
+            },
+        }
+    }
 }
 
 const OID_CERT_POLICIES: &[u8] = &[0x55, 0x1D, 0x20];
 const OID_CRLDP: &[u8] = &[0x55, 0x1D, 0x1F];
 const OID_SIA: &[u8] = &[0x2B, 0x06, 0x01, 0x05, 0x05, 0x07, 0x01, 0x0B];
+const OID_IP_RES: &[u8] = &[0x2B, 0x06, 0x01, 0x05, 0x05, 0x07, 0x01, 0x07];
+const OID_IP_RES_V2: &[u8] = &[0x2B, 0x06, 0x01, 0x05, 0x05, 0x07, 0x01, 0x1C];
 const OID_AS_RES: &[u8] = &[0x2B, 0x06, 0x01, 0x05, 0x05, 0x07, 0x01, 0x08];
 const OID_AS_RES_V2: &[u8] = &[0x2B, 0x06, 0x01, 0x05, 0x05, 0x07, 0x01, 0x1D];
 const OID_QT_CPS: &[u8] = &[0x2B, 0x06, 0x01, 0x05, 0x05, 0x07, 0x02, 0x01];
@@ -1526,6 +1586,45 @@ fn edit_ext_value(exts: &mut [Node], oid_content: &[u8], f: &mut dyn FnMut(&mut 
         *bytes = inner.encode();
     }
     Ok(())
+}
+
+/// Value of a non-negative DER INTEGER of at most 8 significant octets.
+fn uint_of(b: &[u8]) -> Option<u64> {
+    if b.is_empty() || b[0] & 0x80 != 0 {
+        return None;
+    }
+    let b = if b[0] == 0 && b.len() > 1 { &b[1..] } else { b };
+    if b.len() > 8 {
+        return None;
+    }
+    Some(b.iter().fold(0u64, |v, &x| v << 8 | x as u64))
+}
+
+/// The two halves of an RFC 3779 prefix BIT STRING (content octets incl. the
+/// unused-bits octet): the prefix extended by a 0 bit and by a 1 bit.
+fn halve_prefix(content: &[u8]) -> Option<(Vec<u8>, Vec<u8>)> {
+    let (&unused, bytes) = content.split_first()?;
+    if unused > 7 || (bytes.is_empty() && unused != 0) {
+        return None;
+    }
+    let len = bytes.len() * 8 - unused as usize;
+    if len >= 32 {
+        // may be an IPv4 host route already; IPv6 prefixes this long are left alone too
+        return None;
+    }
+    let new_len = len + 1;
+    let n = new_len.div_ceil(8);
+    let mut lo = bytes.to_vec();
+    lo.resize(n, 0);
+    let mut hi = lo.clone();
+    hi[len / 8] |= 0x80 >> (len % 8);
+    let un = (n * 8 - new_len) as u8;
+    let mk = |v: Vec<u8>| {
+        let mut out = vec![un];
+        out.extend_from_slice(&v);
+        out
+    };
+    Some((mk(lo), mk(hi)))
 }
 
 pub fn dress_cert(der: &[u8], sign_key: usize, d: &Dress) -> Result<Vec<u8>, String> {
@@ -1630,6 +1729,90 @@ pub fn dress_cert(der: &[u8], sign_key: usize, d: &Dress) -> Result<Vec<u8>, Str
                                 *item = Node::cons(0x30, vec![twin.clone(), twin]);
                             }
                         }
+                    }
+                })?;
+            }
+        }
+        if d.ip_family_swap || d.res_noncanon & 0x2a != 0 {
+            let (swap, nc) = (d.ip_family_swap, d.res_noncanon);
+            for o in [OID_IP_RES, OID_IP_RES_V2] {
+                edit_ext_value(exts, o, &mut |v| {
+                    let Some(fams) = v.kids_mut() else { return };
+                    for fam in fams.iter_mut() {
+                        // IPAddressFamily { OCTET STRING, NULL | SEQUENCE OF entry }
+                        let Some(list) = fam.kids_mut().and_then(|k| k.get_mut(1)).and_then(|l| l.kids_mut()) else { continue };
+                        if list.is_empty() {
+                            continue;
+                        }
+                        let at = (nc >> 8) as usize % list.len();
+                        if nc & 0x20 != 0 {
+                            // the first prefix at or after `at` that can be halved
+                            if let Some(i) = (0..list.len()).map(|k| (at + k) % list.len()).find(|&i| list[i].tag0() == 0x03) {
+                                if let Some((a, b)) = list[i].prim_bytes().and_then(halve_prefix) {
+                                    list[i] = Node::prim(0x03, &a);
+                                    list.insert(i + 1, Node::prim(0x03, &b));
+                                }
+                            }
+                        }
+                        if nc & 0x08 != 0 {
+                            let twin = list[at % list.len()].clone();
+                            list.insert(at % list.len(), twin);
+                        }
+                        if nc & 0x02 != 0 {
+                            list.reverse();
+                        }
+                    }
+                    if swap {
+                        fams.reverse();
+                    }
+                })?;
+            }
+        }
+        if d.res_noncanon & 0x15 != 0 {
+            let nc = d.res_noncanon;
+            for o in [OID_AS_RES, OID_AS_RES_V2] {
+                edit_ext_value(exts, o, &mut |v| {
+                    let list = v
+                        .kids_mut()
+                        .and_then(|k| k.iter_mut().find(|n| n.tag0() == 0xA0))
+                        .and_then(|a| a.kids_mut())
+                        .and_then(|k| k.first_mut())
+                        .and_then(|l| l.kids_mut());
+                    let Some(list) = list else { return };
+                    if list.is_empty() {
+                        return;
+                    }
+                    let at = (nc >> 8) as usize % list.len();
+                    if nc & 0x10 != 0 {
+                        let found = (0..list.len()).map(|k| (at + k) % list.len()).find_map(|i| {
+                            let k = list[i].kids();
+                            if list[i].tag0() != 0x30 || k.len() != 2 {
+                                return None;
+                            }
+                            let (a, b) = (uint_of(k[0].prim_bytes()?)?, uint_of(k[1].prim_bytes()?)?);
+                            (a < b).then_some((i, a, b))
+                        });
+                        if let Some((i, a, b)) = found {
+                            // [a, m] and [m' , b] with m' in {m + 1 (adjacent), m (overlap), a (covering)}
+                            let m = a + (nc as u64 >> 16) % (b - a);
+                            let m2 = match nc >> 14 & 3 {
+                                0 => m + 1,
+                                1 => m,
+                                _ => a,
+                            };
+                            let rng = |x: u64, y: u64| parse_exact(&seq(&[int_u64(x), int_u64(y)])).ok();
+                            if let (Some(r1), Some(r2)) = (rng(a, m), rng(m2, b)) {
+                                list[i] = r1;
+                                list.insert(i + 1, r2);
+                            }
+                        }
+                    }
+                    if nc & 0x04 != 0 {
+                        let twin = list[at % list.len()].clone();
+                        list.insert(at % list.len(), twin);
+                    }
+                    if nc & 0x01 != 0 {
+                        list.reverse();
                     }
                 })?;
             }
